@@ -2690,11 +2690,15 @@ char*
 ppl_io_wrap_string(const char* src,
                    unsigned indent_depth,
                    unsigned preferred_first_line_length,
-                   unsigned preferred_line_length) {
+                   unsigned preferred_line_length) try {
   using namespace IO_Operators;
   return strdup(wrap_string(src, indent_depth,
                             preferred_first_line_length,
                             preferred_line_length).c_str());
+}
+catch (...) {
+  // No exception may cross the language boundary.
+  return nullptr;
 }
 
 int
